@@ -234,14 +234,18 @@ KeyRef key_rsa_fresh(int bits)
 	return k;
 }
 
-const int RSA_POOL_BITS[] = {512, 1024, 2040, 2047, 2048, 3072, 4096};
+const int RSA_POOL_BITS[] = {512, 1024, 2040, 2047, 2048, 3072, 4096, 2056, 2184, 3584, 4088};
 const int N_RSA_POOL_BITS = (int)ARRAY_LEN(RSA_POOL_BITS);
 const int RSA_POOL_PER_SIZE = 2;
 
+// The pool is committed under /verif/keys (test material, generated once with the simulated entropy
+// stream): OpenSSL's RSA key generation turned out not to be a pure function of the RAND stream (the
+// same stream gives a different modulus on the first call than on later calls in one process), so
+// nothing generates RSA keys at run time; a missing file is regenerated by `jwtsim setup`.
 static std::string cache_dir()
 {
 	const char *e = getenv("VERIF_CACHE");
-	return e ? e : "/verif/.cache";
+	return e ? e : "/verif/keys";
 }
 
 static std::string pool_path(int bits, int idx)
